@@ -59,8 +59,10 @@ Lemma combine3 (O L R O' L' R' cO cL cR : list E) :
   let calls := cL ++ cR ++ cO in
   incl calls (O ++ L ++ R) /\ NoDup calls /\ kept (O ++ L ++ R) (O' ++ L' ++ R') calls /\
   (Permutation cO O -> Permutation cL L -> Permutation cR R -> Permutation calls (O ++ L ++ R)) /\
-  ((exists e, In e O /\ ~ In e cO) \/ (exists e, In e L /\ ~ In e cL) \/ (exists e, In e R /\ ~ In e cR) ->
-   exists e, In e (O ++ L ++ R) /\ ~ In e calls).
+  (forall Q : E -> Prop,
+   (exists e, In e O /\ ~ In e cO /\ Q e) \/ (exists e, In e L /\ ~ In e cL /\ Q e) \/
+   (exists e, In e R /\ ~ In e cR /\ Q e) ->
+   exists e, In e (O ++ L ++ R) /\ ~ In e calls /\ Q e).
 Proof.
   intros DOL DOR DLR IO NO KO IL NL KL IR NR KR calls. subst calls.
   split; [|split; [|split; [|split]]].
@@ -81,7 +83,8 @@ Proof.
     apply Permutation_trans with (l' := (cL ++ cR) ++ cO); [rewrite app_assoc; apply Permutation_refl|].
     apply Permutation_trans with (l' := cO ++ (cL ++ cR)); [apply Permutation_app_comm|].
     apply Permutation_app; [exact PO|]. apply Permutation_app; assumption.
-  - intros [[e [H1 H2]]|[[e [H1 H2]]|[e [H1 H2]]]]; exists e; rewrite !in_app_iff; (split; [tauto|]).
+  - intros Q [[e [H1 [H2 HQ]]]|[[e [H1 [H2 HQ]]]|[e [H1 [H2 HQ]]]]]; exists e; rewrite !in_app_iff;
+      (split; [tauto|]); (split; [|exact HQ]).
     + intros [H|[H|H]]; [apply (DOL e); auto | apply (DOR e); auto | exact (H2 H)].
     + intros [H|[H|H]]; [exact (H2 H) | apply (DLR e); auto | apply (DOL e); auto].
     + intros [H|[H|H]]; [apply (DLR e); auto | exact (H2 H) | apply (DOR e); auto].
@@ -93,6 +96,7 @@ Ltac feed C tac :=
   repeat (match type of C with
           | ?A -> _ => let HA := fresh in assert (HA : A) by tac; specialize (C HA); clear HA
           end).
+Ltac usecx Cx := match goal with |- exists e, _ /\ _ /\ @?Q e => apply (Cx Q) end.
 Ltac prem := first [ assumption | apply kept_nil | (intros ? []) | constructor ].
 
 (* ------------------------------------------------------------------------------------------ *)
@@ -155,7 +159,75 @@ Proof.
 Qed.
 
 (* ------------------------------------------------------------------------------------------ *)
+(** * Well-formedness for an arbitrary closure (every outcome, also a panic) *)
+
+Lemma ret_wf_gen (f : nat -> pfx -> V -> option bool) t : forall b hp s t' st s',
+  wf_under b t -> ret f hp t s = (t', st, s') ->
+  wf_under b t' /\
+  (hp = false -> forall i p v l r, t = Node i p v l r -> exists v' l' r', t' = Node i p v' l' r') /\
+  (st = RDone true -> t' = Leaf).
+Proof.
+  induction t as [|i p v l IHl r IHr]; intros b hp s t' st s' Hwf H.
+  - cbn in H. inversion H; subst. split; [exact I|].
+    split; [intros _ i p v l r E; discriminate E | discriminate].
+  - cbn [Trie.ret] in H. pose proof Hwf as [Hp [Hb [Hl Hr]]].
+    assert (ROOT : forall v' (l' r' : tree), hp = false -> forall i0 p0 v0 l0 r0, Node i p v l r = Node i0 p0 v0 l0 r0 ->
+                     exists v'' l'' r'', Node i p v' l' r' = Node i0 p0 v'' l'' r'').
+    { intros v' l' r' _ i0 p0 v0 l0 r0 E. inversion E; subst. eauto. }
+    destruct (ret f true l s) as [[l' sl] s1] eqn:EL.
+    destruct (IHl _ _ _ _ _ _ Hl EL) as [LwfL [_ LleafL]].
+    destruct sl as [fl|].
+    2: { inversion H; subst. split; [cbn; tauto|]. split; [apply ROOT | discriminate]. }
+    destruct (fl && (hp && is_none v)) eqn:C1.
+    + apply andb_prop in C1 as [-> C1]. apply andb_prop in C1 as [-> Hv].
+      destruct (IHr _ _ _ _ _ _ Hr H) as [LwfR [_ LleafR]].
+      split; [eapply wf_sub_weaken; eassumption|]. split; [intros E; discriminate E | exact LleafR].
+    + destruct (ret f true r s1) as [[r' sr] s2] eqn:ER.
+      destruct (IHr _ _ _ _ _ _ Hr ER) as [LwfR [_ LleafR]].
+      assert (WF' : forall v', wf_under b (Node i p v' l' r')) by (intros v'; cbn; tauto).
+      destruct sr as [fr|].
+      2: { inversion H; subst. split; [apply WF'|]. split; [apply ROOT | discriminate]. }
+      destruct (fr && (hp && is_none v)) eqn:C2.
+      * apply andb_prop in C2 as [-> C2]. apply andb_prop in C2 as [-> Hv].
+        inversion H; subst. split; [eapply wf_sub_weaken; eassumption|].
+        split; [intros E; discriminate E | discriminate].
+      * destruct v as [x|].
+        2: { inversion H; subst. split; [apply WF'|]. split; [apply ROOT | discriminate]. }
+        destruct (f (length (snd s2)) p x) as [[|]|] eqn:F.
+        -- inversion H; subst. split; [apply WF'|]. split; [apply ROOT | discriminate].
+        -- destruct (remove_self hp i p (Some x) l' r' (fst s2)) as [[t1 fl1] a3] eqn:RS.
+           inversion H; subst.
+           destruct (remove_self_spec _ _ _ _ _ _ _ _ _ _ _ (WF' (Some x)) RS) as [RSwf [_ [RSfl RShp]]].
+           split; [exact RSwf|]. split.
+           ++ intros E i0 p0 v0 l0 r0 E0. rewrite (RShp E). inversion E0; subst. eauto.
+           ++ intros E. inversion E; subst. apply RSfl. reflexivity.
+        -- inversion H; subst. split; [apply WF'|]. split; [apply ROOT | discriminate].
+Qed.
+
+(** MAIN THEOREM 1 (arbitrary closure): [_retain] preserves well-formedness whatever the outcome;
+    a node without parent stays in place; a subtree reported as "removed as a leaf" is gone *)
+Theorem ret_wf (f : nat -> pfx -> V -> option bool) b hp t s t' st s' :
+  wf_under b t -> ret f hp t s = (t', st, s') ->
+  wf_under b t' /\
+  (hp = false -> forall i p v l r, t = Node i p v l r -> exists v' l' r', t' = Node i p v' l' r') /\
+  (st = RDone true -> t' = Leaf).
+Proof. apply ret_wf_gen. Qed.
+
+Theorem retain_wf (f : nat -> pfx -> V -> option bool) m m' panicked calls :
+  wf_root (root m) -> retain f m = (m', panicked, calls) -> wf_root (root m').
+Proof.
+  unfold Trie.retain. intros Hwf H.
+  destruct (ret f false (root m) (al m, [])) as [[t' st] [a' log']] eqn:E.
+  inversion H; subst. cbn [root].
+  destruct (root m) as [|i p v l r] eqn:R; [destruct Hwf|]. destruct Hwf as [Hb Hwf].
+  destruct (ret_wf_gen f _ _ _ _ _ _ _ Hwf E) as [W [N _]].
+  destruct (N eq_refl _ _ _ _ _ eq_refl) as [v' [l' [r' ->]]].
+  split; [exact Hb | exact W].
+Qed.
+
+(* ------------------------------------------------------------------------------------------ *)
 (** * The recursion *)
+Section F.
 Variable f : nat -> pfx -> V -> option bool.
 Variable g : pfx -> V -> bool.
 (** the verdict of a non-panicking invocation does not depend on the invocation count *)
@@ -173,7 +245,7 @@ Record ret_post (b : list bool) (hp : bool) (t : tree) (log : list (pfx * V))
   rp_nodup : NoDup calls;
   rp_perm : st <> RPanic -> Permutation calls (entries t);
   rp_kept : kept rej (entries t) (entries t') calls;
-  rp_panic : st = RPanic -> exists e, In e (entries t) /\ ~ In e calls }.
+  rp_panic : st = RPanic -> exists e, In e (entries t) /\ ~ In e calls /\ f (length log') (fst e) (snd e) = None }.
 
 Lemma log_comb (log log1 log2 log' cL cR cO : list (pfx * V)) :
   log1 = rev cL ++ log -> log2 = rev cR ++ log1 -> log' = rev cO ++ log2 ->
@@ -221,7 +293,7 @@ Proof.
       - exact Cn.
       - intros N. exfalso. apply N. reflexivity.
       - rewrite entries_node. exact Ck.
-      - intros _. apply Cx. right. left. apply LpanL. reflexivity. }
+      - intros _. usecx Cx. right. left. apply LpanL. reflexivity. }
     destruct (fl && (hp && is_none v)) eqn:C1.
     + (* collapsed by the removal of the left child *)
       apply andb_prop in C1 as [-> C1]. apply andb_prop in C1 as [-> Hv].
@@ -239,7 +311,7 @@ Proof.
       * exact Cn.
       * intros N. apply Cp; [constructor | apply LpermL; apply NOPANIC | apply LpermR; exact N].
       * exact Ck.
-      * intros N. apply Cx. right. right. apply LpanR. exact N.
+      * intros N. usecx Cx. right. right. apply LpanR. exact N.
     + destruct (ret f true r (a1, log1)) as [[r' sr] [a2 log2]] eqn:ER.
       destruct (IHr _ _ _ _ _ _ _ _ Hr ER) as [cR [LlogR LwfR _ LleafR LinclR LndR LpermR LkeptR LpanR]].
       assert (WF' : forall v', wf_under b (Node i p v' l' r')) by (intros v'; cbn; tauto).
@@ -256,7 +328,7 @@ Proof.
         - exact Cn.
         - intros N. exfalso. apply N. reflexivity.
         - rewrite entries_node. exact Ck.
-        - intros _. apply Cx. right. right. apply LpanR. reflexivity. }
+        - intros _. usecx Cx. right. right. apply LpanR. reflexivity. }
       destruct (fr && (hp && is_none v)) eqn:C2.
       * (* collapsed by the removal of the right child *)
         apply andb_prop in C2 as [-> C2]. apply andb_prop in C2 as [-> Hv].
@@ -340,7 +412,261 @@ Proof.
            ++ exact Cn.
            ++ intros N. exfalso. apply N. reflexivity.
            ++ rewrite entries_node. exact Ck.
-           ++ intros _. apply Cx. left. exists (p, x). split; [left; reflexivity | intros []].
+           ++ intros _. usecx Cx. left. exists (p, x). split; [left; reflexivity|]. split; [intros [] | exact F].
 Qed.
 
+
+(** the invocation counter: every call made was answered by [g] at the index it was made with *)
+Fixpoint answered (n : nat) (calls : list (pfx * V)) : Prop :=
+  match calls with
+  | [] => True
+  | e :: c => f n (fst e) (snd e) = Some (g (fst e) (snd e)) /\ answered (S n) c
+  end.
+
+Lemma answered_app n c1 c2 : answered n c1 -> answered (n + length c1) c2 -> answered n (c1 ++ c2).
+Proof.
+  revert n. induction c1 as [|e c1 IH]; intros n H1 H2; cbn in *.
+  - rewrite Nat.add_0_r in H2. exact H2.
+  - destruct H1 as [H0 H1]. split; [exact H0|]. apply IH; [exact H1|].
+    rewrite Nat.add_succ_r in H2. exact H2.
+Qed.
+
+Lemma answered_app3 (log log1 log2 cL cR cO : list (pfx * V)) :
+  log1 = rev cL ++ log -> log2 = rev cR ++ log1 ->
+  answered (length log) cL -> answered (length log1) cR -> answered (length log2) cO ->
+  answered (length log) (cL ++ cR ++ cO).
+Proof.
+  intros -> -> HL HR HO. rewrite !app_length, !rev_length in *.
+  apply answered_app; [exact HL|]. apply answered_app.
+  - replace (length log + length cL) with (length cL + length log) by lia. exact HR.
+  - replace (length log + length cL + length cR) with (length cR + (length cL + length log)) by lia. exact HO.
+Qed.
+
+Lemma ret_answers t : forall hp a log t' st a' log',
+  ret f hp t (a, log) = (t', st, (a', log')) ->
+  exists calls, log' = rev calls ++ log /\ answered (length log) calls.
+Proof.
+  induction t as [|i p v l IHl r IHr]; intros hp a log t' st a' log' H.
+  - cbn in H. inversion H; subst. exists []. split; [reflexivity|exact I].
+  - cbn [Trie.ret] in H.
+    destruct (ret f true l (a, log)) as [[l' sl] [a1 log1]] eqn:EL.
+    destruct (IHl _ _ _ _ _ _ _ EL) as [cL [LlogL AL]].
+    destruct sl as [fl|].
+    2: { inversion H; subst. exists cL. split; [reflexivity|exact AL]. }
+    destruct (fl && (hp && is_none v)) eqn:C1.
+    + cbn [fst snd] in H. destruct (IHr _ _ _ _ _ _ _ H) as [cR [LlogR AR]].
+      exists (cL ++ cR ++ []). split.
+      * eapply log_comb; [exact LlogL | exact LlogR | reflexivity].
+      * eapply answered_app3; [exact LlogL | exact LlogR | exact AL | exact AR | exact I].
+    + destruct (ret f true r (a1, log1)) as [[r' sr] [a2 log2]] eqn:ER.
+      destruct (IHr _ _ _ _ _ _ _ ER) as [cR [LlogR AR]].
+      assert (NOOWN : log' = log2 -> exists calls, log' = rev calls ++ log /\ answered (length log) calls).
+      { intros ->. exists (cL ++ cR ++ []). split.
+        - eapply log_comb; [exact LlogL | exact LlogR | reflexivity].
+        - eapply answered_app3; [exact LlogL | exact LlogR | exact AL | exact AR | exact I]. }
+      destruct sr as [fr|].
+      2: { inversion H; subst. apply NOOWN. reflexivity. }
+      destruct (fr && (hp && is_none v)) eqn:C2.
+      * inversion H; subst. apply NOOWN. reflexivity.
+      * destruct v as [x|].
+        2: { inversion H; subst. apply NOOWN. reflexivity. }
+        cbn [fst snd] in H.
+        assert (OWN : forall c, f (length log2) p x = Some c -> log' = (p, x) :: log2 ->
+                  exists calls, log' = rev calls ++ log /\ answered (length log) calls).
+        { intros c F ->. exists (cL ++ cR ++ [(p, x)]). split.
+          - eapply log_comb; [exact LlogL | exact LlogR | reflexivity].
+          - eapply answered_app3; [exact LlogL | exact LlogR | exact AL | exact AR|].
+            cbn. split; [|exact I]. rewrite F. f_equal. eapply Hf. exact F. }
+        destruct (f (length log2) p x) as [[|]|] eqn:F.
+        -- inversion H; subst. eapply OWN; reflexivity.
+        -- destruct (remove_self hp i p (Some x) l' r' a2) as [[t1 fl1] a3] eqn:RS.
+           inversion H; subst. eapply OWN; reflexivity.
+        -- inversion H; subst. apply NOOWN. reflexivity.
+Qed.
+
+Lemma sorted_filter (h : pfx * V -> bool) (l : list (pfx * V)) :
+  StronglySorted key_lt l -> StronglySorted key_lt (filter h l).
+Proof.
+  induction l as [|x l IH]; intros Hs; cbn; [constructor|].
+  inversion Hs as [|? ? Hs' Hf']; subst. destruct (h x).
+  - constructor; [apply IH; exact Hs'|]. rewrite Forall_forall in *. intros e He.
+    apply filter_In in He. apply Hf'. tauto.
+  - apply IH. exact Hs'.
+Qed.
+
+Definition keep (e : pfx * V) : bool := g (fst e) (snd e).
+
+(** MAIN THEOREM 2: the calls of [_retain] and the entries of its result *)
+Theorem ret_calls b hp t a log t' st a' log' :
+  wf_under b t -> ret f hp t (a, log) = (t', st, (a', log')) ->
+  exists calls,
+    log' = rev calls ++ log /\
+    length log' = length log + length calls /\
+    answered (length log) calls /\
+    incl calls (entries t) /\ NoDup calls /\
+    (forall e, In e (entries t') <-> In e (entries t) /\ ~ (In e calls /\ g (fst e) (snd e) = false)) /\
+    (forall fl, st = RDone fl ->
+       Permutation calls (entries t) /\
+       (forall e, In e (entries t') <-> In e (entries t) /\ g (fst e) (snd e) = true) /\
+       entries t' = filter keep (entries t)) /\
+    (st = RPanic ->
+       exists e, In e (entries t) /\ ~ In e calls /\ f (length log') (fst e) (snd e) = None).
+Proof.
+  intros Hwf H.
+  destruct (ret_spec t _ _ _ _ _ _ _ _ Hwf H) as [calls [Plog Pwf _ _ Pincl Pnd Pperm Pkept Ppan]].
+  destruct (ret_answers t _ _ _ _ _ _ _ H) as [calls' [Plog' Pans]].
+  assert (calls' = calls).
+  { rewrite Plog in Plog'. apply app_inv_tail in Plog'.
+    rewrite <- (rev_involutive calls), <- (rev_involutive calls'). f_equal. symmetry. exact Plog'. }
+  subst calls'. exists calls.
+  split; [exact Plog|]. split; [rewrite Plog, app_length, rev_length; lia|].
+  split; [exact Pans|]. split; [exact Pincl|]. split; [exact Pnd|]. split; [exact Pkept|].
+  split; [|exact Ppan].
+  intros fl ->.
+  assert (Pp : Permutation calls (entries t)) by (apply Pperm; discriminate).
+  assert (M : forall e, In e (entries t') <-> In e (entries t) /\ g (fst e) (snd e) = true).
+  { intros e. rewrite (Pkept e). unfold rej. split.
+    - intros [H1 H2]. split; [exact H1|]. destruct (g (fst e) (snd e)); [reflexivity|].
+      exfalso. apply H2. split; [|reflexivity]. eapply Permutation_in; [apply Permutation_sym; exact Pp | exact H1].
+    - intros [H1 H2]. split; [exact H1|]. intros [_ H3]. congruence. }
+  split; [exact Pp|]. split; [exact M|].
+  apply (sorted_ext pfx V bits).
+  - eapply entries_sorted. exact Pwf.
+  - apply sorted_filter. eapply entries_sorted. exact Hwf.
+  - intros e. rewrite (M e), filter_In. unfold keep. tauto.
+Qed.
+
+(** MAIN THEOREM 3: the map-level operation *)
+Theorem retain_spec m m' panicked calls :
+  wf_root (root m) -> retain f m = (m', panicked, calls) ->
+  wf_root (root m') /\
+  answered 0 calls /\
+  incl calls (entries (root m)) /\ NoDup calls /\
+  (forall e, In e (entries (root m')) <->
+             In e (entries (root m)) /\ ~ (In e calls /\ g (fst e) (snd e) = false)) /\
+  (panicked = false ->
+     entries (root m') = filter keep (entries (root m)) /\
+     Permutation calls (entries (root m)) /\
+     (forall e, In e (entries (root m')) <-> In e (entries (root m)) /\ g (fst e) (snd e) = true)) /\
+  (panicked = true ->
+     exists e, In e (entries (root m)) /\ ~ In e calls /\ f (length calls) (fst e) (snd e) = None).
+Proof.
+  intros Hwf H. split; [eapply retain_wf; eassumption|].
+  unfold Trie.retain in H.
+  destruct (ret f false (root m) (al m, [])) as [[t' st] [a' log']] eqn:E.
+  inversion H; subst. cbn [root]. clear H.
+  assert (Hwf0 : wf_under [] (root m)).
+  { destruct (root m); [destruct Hwf | exact (proj2 Hwf)]. }
+  destruct (ret_calls _ _ _ _ _ _ _ _ _ Hwf0 E) as [calls [Plog [Plen [Pans [Pincl [Pnd [Pkept [Pdone Ppan]]]]]]]].
+  rewrite app_nil_r in Plog. subst log'. rewrite rev_involutive. rewrite rev_length in *.
+  split; [exact Pans|]. split; [exact Pincl|]. split; [exact Pnd|]. split; [exact Pkept|]. split.
+  - intros Hp. destruct st as [fl|]; [|discriminate Hp].
+    destruct (Pdone fl eq_refl) as [A [B C]]. auto.
+  - intros Hp. destruct st as [fl|]; [discriminate Hp|]. apply Ppan. reflexivity.
+Qed.
+
+End F.
+
+(* ------------------------------------------------------------------------------------------ *)
+(** * The closure of the test scripts: invocation [k] panics iff [panics k]; otherwise the verdict
+      is [g] *)
+Section P.
+Variable panics : nat -> bool.
+Variable g : pfx -> V -> bool.
+
+Definition pf (n : nat) (p : pfx) (x : V) : option bool := if panics n then None else Some (g p x).
+
+Lemma pf_ok : forall n p x c, pf n p x = Some c -> c = g p x.
+Proof. unfold pf. intros n p x c. destruct (panics n); [discriminate|]. intros H. inversion H. reflexivity. Qed.
+
+Lemma answered_pf n calls : answered pf g n calls -> forall k, k < length calls -> panics (n + k) = false.
+Proof.
+  revert n. induction calls as [|e c IH]; intros n H k Hk; cbn in *; [lia|].
+  destruct H as [H0 H]. destruct k as [|k].
+  - rewrite Nat.add_0_r. unfold pf in H0. destruct (panics n); [discriminate|reflexivity].
+  - rewrite Nat.add_succ_r. apply (IH (S n) H k). lia.
+Qed.
+
+(** [_retain] with the scripted closure *)
+Theorem ret_pf_spec b hp t a log t' st a' log' :
+  wf_under b t -> ret pf hp t (a, log) = (t', st, (a', log')) ->
+  wf_under b t' /\
+  (hp = false -> forall i p v l r, t = Node i p v l r -> exists v' l' r', t' = Node i p v' l' r') /\
+  (st = RDone true -> t' = Leaf) /\
+  exists calls,
+    log' = rev calls ++ log /\
+    length log' = length log + length calls /\
+    (forall k, k < length calls -> panics (length log + k) = false) /\
+    incl calls (entries t) /\ NoDup calls /\
+    (forall e, In e (entries t') <-> In e (entries t) /\ ~ (In e calls /\ g (fst e) (snd e) = false)) /\
+    (forall fl, st = RDone fl ->
+       Permutation calls (entries t) /\
+       (forall e, In e (entries t') <-> In e (entries t) /\ g (fst e) (snd e) = true) /\
+       entries t' = filter (fun e => g (fst e) (snd e)) (entries t)) /\
+    (st = RPanic -> panics (length log') = true /\ length calls < length (entries t)).
+Proof.
+  intros Hwf H.
+  destruct (ret_wf pf _ _ _ _ _ _ _ Hwf H) as [W [N L]].
+  split; [exact W|]. split; [exact N|]. split; [exact L|].
+  destruct (ret_calls pf g pf_ok _ _ _ _ _ _ _ _ _ Hwf H)
+    as [calls [Plog [Plen [Pans [Pincl [Pnd [Pkept [Pdone Ppan]]]]]]]].
+  exists calls.
+  split; [exact Plog|]. split; [exact Plen|]. split; [apply answered_pf; exact Pans|].
+  split; [exact Pincl|]. split; [exact Pnd|]. split; [exact Pkept|]. split; [exact Pdone|].
+  intros Hst. destruct (Ppan Hst) as [e [He [Hne Hpan]]]. split.
+  - unfold pf in Hpan. destruct (panics (length log')); [reflexivity|discriminate].
+  - assert (Hl : length (e :: calls) <= length (entries t)).
+    { apply NoDup_incl_length.
+      - constructor; assumption.
+      - intros e' [<-|He']; [exact He | apply Pincl; exact He']. }
+    cbn in Hl. lia.
+Qed.
+
+(** [retain] with the scripted closure.  The closure panics iff one of the first [n] invocations
+    is scripted to panic ([n] = number of stored entries); the number of invocations that returned
+    is the index of the first panicking one. *)
+Theorem retain_pf_spec m m' panicked calls :
+  wf_root (root m) -> retain pf m = (m', panicked, calls) ->
+  wf_root (root m') /\
+  (forall k, k < length calls -> panics k = false) /\
+  incl calls (entries (root m)) /\ NoDup calls /\
+  (forall e, In e (entries (root m')) <->
+             In e (entries (root m)) /\ ~ (In e calls /\ g (fst e) (snd e) = false)) /\
+  (panicked = false ->
+     entries (root m') = filter (fun e => g (fst e) (snd e)) (entries (root m)) /\
+     Permutation calls (entries (root m)) /\
+     (forall e, In e (entries (root m')) <-> In e (entries (root m)) /\ g (fst e) (snd e) = true)) /\
+  (panicked = true -> panics (length calls) = true /\ length calls < length (entries (root m))) /\
+  (panicked = false <-> forall k, k < length (entries (root m)) -> panics k = false).
+Proof.
+  intros Hwf H.
+  destruct (retain_spec pf g pf_ok _ _ _ _ Hwf H) as [W [Pans [Pincl [Pnd [Pkept [Pdone Ppan]]]]]].
+  assert (Pk : forall k, k < length calls -> panics k = false).
+  { intros k Hk. apply (answered_pf 0 calls Pans k Hk). }
+  assert (Pp : panicked = true -> panics (length calls) = true /\ length calls < length (entries (root m))).
+  { intros Hp. destruct (Ppan Hp) as [e [He [Hne Hpan]]]. split.
+    - unfold pf in Hpan. destruct (panics (length calls)); [reflexivity|discriminate].
+    - assert (Hl : length (e :: calls) <= length (entries (root m))).
+      { apply NoDup_incl_length.
+        - constructor; assumption.
+        - intros e' [<-|He']; [exact He | apply Pincl; exact He']. }
+      cbn in Hl. lia. }
+  split; [exact W|]. split; [exact Pk|]. split; [exact Pincl|]. split; [exact Pnd|].
+  split; [exact Pkept|]. split; [exact Pdone|]. split; [exact Pp|].
+  split.
+  - intros Hp k Hk. apply Pk. destruct (Pdone Hp) as [_ [Perm _]].
+    rewrite (Permutation_length Perm). exact Hk.
+  - intros Hall. destruct panicked; [|reflexivity]. destruct (Pp eq_refl) as [A B].
+    rewrite (Hall _ B) in A. discriminate A.
+Qed.
+
+End P.
+
 End RT.
+
+Print Assumptions ret_wf.
+Print Assumptions retain_wf.
+Print Assumptions ret_calls.
+Print Assumptions retain_spec.
+Print Assumptions ret_pf_spec.
+Print Assumptions retain_pf_spec.
